@@ -1,5 +1,141 @@
-(* Properties/C06.v — TEMPORARY skeleton, replaced when the proofs are complete *)
-From ZV Require Import Base.Bytes C06.Spec C06.SpecFacts.
-Theorem C06_spec_decidable : forall gv s, valid_sigb gv s = true <-> valid_signature gv s.
+(* Properties/C06.v — signature strings parse exactly per the D-Bus type grammar.
+   Only statements, each closed by [exact] of a lemma of C06/*.v, and their assumptions.
+   Model: C06/Model.v (mirror of zvariant_utils/src/signature); grammar: C06/Spec.v; classes: C06/Classes.v. *)
+From ZV Require Import Base.Bytes Base.Res Base.Sig
+  C06.Model C06.Spec C06.Classes C06.SpecFacts C06.ParseFacts C06.EqFacts C06.DepthFacts C06.Proofs.
+
+(* ---- the executable oracle decides the inductive grammar *)
+Theorem C06_spec_decidable : forall (gv : bool) (s : bytes), valid_sigb gv s = true <-> valid_signature gv s.
 Proof. exact valid_sigb_iff. Qed.
 Print Assumptions C06_spec_decidable.
+
+(* ---- parse, then format: the string comes back, up to the outer parentheses of a multi-type signature *)
+Theorem C06_roundtrip : forall (gv : bool) (s : bytes) (t : tsig),
+  from_str gv s = Ok t -> show t = s \/ (is_struct t = true /\ show_noparens t = s).
+Proof. exact parse_roundtrip. Qed.
+Print Assumptions C06_roundtrip.
+
+(* ---- format, then parse: every tree that has a string form parses back to itself (all-Dynamic representation) *)
+Theorem C06_show_parse : forall (gv : bool) (t : tsig),
+  t = TLeaf CUnit \/ parseable gv t = true -> from_str gv (show t) = Ok (erase t).
+Proof. exact show_parse. Qed.
+Print Assumptions C06_show_parse.
+
+Theorem C06_show_noparens_parse : forall (gv : bool) (r : repr) (fs : list tsig),
+  2 <= length fs -> forallb (parseable gv) fs = true ->
+  from_str gv (show_noparens (TStruct r fs)) = Ok (erase (TStruct r fs)).
+Proof. exact show_noparens_parse. Qed.
+Print Assumptions C06_show_noparens_parse.
+
+(* ---- string_len is the length of the formatted string, for every tree *)
+Theorem C06_len : forall t : tsig, string_len t = length (show t).
+Proof. exact string_len_show. Qed.
+Print Assumptions C06_len.
+
+(* ---- Eq / Hash / Ord / Display / string_len / PartialEq<&str> do not depend on Static vs Dynamic *)
+Theorem C06_repr : forall t1 t2 : tsig, erase t1 = erase t2 ->
+  sig_eq t1 t2 = true /\ sig_hash t1 = sig_hash t2 /\ sig_cmp t1 t2 = Eq /\
+  show t1 = show t2 /\ show_noparens t1 = show_noparens t2 /\ string_len t1 = string_len t2 /\
+  (forall s : bytes, eq_str t1 s = eq_str t2 s).
+Proof. exact repr_independent. Qed.
+Print Assumptions C06_repr.
+
+(* ---- == is exactly equality of the trees up to representation *)
+Theorem C06_eq_iff : forall a b : tsig, sig_eq a b = true <-> erase a = erase b.
+Proof. exact sig_eq_iff. Qed.
+Print Assumptions C06_eq_iff.
+
+(* ---- the parser is total: Ok or InvalidSignature, never out of fuel (model artefact), never a panic
+        (winnow's "repeat parsers must always consume" assertion cannot fire) *)
+Theorem C06_parse_total : forall (co gv : bool) (s : bytes),
+  parse co gv s = Err InvalidSignature \/ exists t, parse co gv s = Ok t.
+Proof. exact parse_total. Qed.
+Print Assumptions C06_parse_total.
+
+(* ---- validate (check_only mode) accepts exactly what from_str accepts *)
+Theorem C06_validate_same : forall (gv : bool) (s : bytes), validate gv s = is_ok (from_str gv s).
+Proof. exact validate_same. Qed.
+Print Assumptions C06_validate_same.
+
+(* ---- acceptance.  No valid signature is rejected (full strength) … *)
+Theorem C06_accept_complete : forall (gv : bool) (s : bytes),
+  valid_signature gv s -> exists t, from_str gv s = Ok t.
+Proof. exact accept_complete. Qed.
+Print Assumptions C06_accept_complete.
+
+(* … but the converse, hence the full statement
+     forall gv s, is_ok (from_str gv s) = true <-> valid_signature gv s        (C06_accept_full_statement)
+   is refuted in three classes: *)
+Theorem C06_nonbasic_key_refuted :
+  exists s, is_ok (from_str false s) = true /\ ~ valid_signature false s /\ classify false s = KNonBasicKey.
+Proof. exact nonbasic_key_refuted. Qed.
+Print Assumptions C06_nonbasic_key_refuted.
+
+Theorem C06_nesting_refuted :
+  exists s1 s2, is_ok (from_str false s1) = true /\ ~ valid_signature false s1 /\ classify false s1 = KNesting /\
+                is_ok (from_str false s2) = true /\ ~ valid_signature false s2 /\ classify false s2 = KNesting.
+Proof. exact nesting_refuted. Qed.
+Print Assumptions C06_nesting_refuted.
+
+Theorem C06_length_refuted :
+  exists s, is_ok (from_str false s) = true /\ ~ valid_signature false s /\ classify false s = KLength.
+Proof. exact length_refuted. Qed.
+Print Assumptions C06_length_refuted.
+
+Theorem C06_accept_full_refuted :
+  ~ (forall gv s, is_ok (from_str gv s) = true <-> valid_signature gv s).
+Proof. exact accept_full_refuted. Qed.
+Print Assumptions C06_accept_full_refuted.
+
+(* outside the classes (Known_C06: the string is accepted and its parse has a non-basic dict key, or more than
+   32 nested arrays / structs, or the string has more than 255 bytes) acceptance is exactly the grammar *)
+Theorem C06_accept_partial : forall (gv : bool) (s : bytes), Known_C06 gv s = false ->
+  (is_ok (from_str gv s) = true <-> valid_signature gv s).
+Proof. exact accept_partial. Qed.
+Print Assumptions C06_accept_partial.
+
+(* ---- `parsed == its own string` (PartialEq<&str>): holds with basic dict keys, fails without *)
+Theorem C06_eq_str_partial : forall (gv : bool) (s : bytes) (t : tsig),
+  from_str gv s = Ok t -> basic_keys t = true -> eq_str t s = Ok true.
+Proof. exact eq_str_parsed_partial. Qed.
+Print Assumptions C06_eq_str_partial.
+
+Theorem C06_eq_str_refuted :
+  exists s t, from_str false s = Ok t /\ eq_str t s = Ok false /\ classify false s = KNonBasicKey.
+Proof. exact eq_str_parsed_refuted. Qed.
+Print Assumptions C06_eq_str_refuted.
+
+(* ---- `parsed == other` for another valid signature: sound when no struct is involved, unsound otherwise
+        (the struct branch never looks at the two delimiter bytes) *)
+Theorem C06_eq_str_sound_partial : forall (gv : bool) (s1 s2 : bytes) (t1 t2 : tsig), has_struct t1 = false ->
+  from_str gv s1 = Ok t1 -> from_str gv s2 = Ok t2 -> eq_str t1 s2 = Ok true ->
+  sig_eq t1 t2 = true /\ s2 = s1.
+Proof. exact eq_str_sound_partial. Qed.
+Print Assumptions C06_eq_str_sound_partial.
+
+Theorem C06_eq_str_sound_refuted :
+  exists s1 s2 t1 t2, valid_signature false s1 /\ valid_signature false s2 /\
+    from_str false s1 = Ok t1 /\ from_str false s2 = Ok t2 /\ eq_str t1 s2 = Ok true /\ sig_eq t1 t2 = false /\
+    has_struct t1 = true.
+Proof. exact eq_str_sound_refuted. Qed.
+Print Assumptions C06_eq_str_sound_refuted.
+
+(* ---- recursion depth: n opening parentheses nest n activations of parse_signature; no constant bounds it *)
+Theorem C06_stack_unbounded : forall (gv : bool) (n : nat), (N.of_nat n <= stack_used gv (repeat "("%byte n))%N.
+Proof. exact stack_unbounded. Qed.
+Print Assumptions C06_stack_unbounded.
+
+Theorem C06_deep_recursion_refuted :
+  ~ (exists bound : N, forall gv s, (stack_used gv s <= bound)%N).
+Proof. exact bounded_stack_refuted. Qed.
+Print Assumptions C06_deep_recursion_refuted.
+
+(* … and the depth is at most linear in the length of the input (so a 255-byte limit would bound it by 256) *)
+Theorem C06_stack_linear : forall (gv : bool) (s : bytes), (stack_used gv s <= N.of_nat (length s) + 1)%N.
+Proof. exact stack_linear. Qed.
+Print Assumptions C06_stack_linear.
+
+(* ---- the formatter agrees with the plain-tree formatter of Base/Sig.v used by the codec properties *)
+Theorem C06_show_to_sig : forall t : tsig, show t = Sig.show (to_sig t).
+Proof. exact show_to_sig. Qed.
+Print Assumptions C06_show_to_sig.
